@@ -138,6 +138,11 @@ def _child(spec: dict) -> dict:  # noqa: C901, PLR0915, PLR0912
 
     boom = Boom("c12-unique-boom")
 
+    class Halt(BaseException):
+        """a BaseException that is not an Exception (like SystemExit / KeyboardInterrupt)"""
+
+    faults = {"boom": boom, "base": Halt("c12-unique-halt"), "sysexit": SystemExit(97)}
+
     def enter(site: str, **info) -> None:
         k = counts[site]
         counts[site] += 1
@@ -149,7 +154,7 @@ def _child(spec: dict) -> dict:  # noqa: C901, PLR0915, PLR0912
             log.append({"site": "inject", "at": site, "k": k, "kind": inject["kind"]})
             if inject["kind"] == "exit":
                 raise urwid.ExitMainLoop()
-            raise boom
+            raise faults[inject["kind"]]
 
     def bump() -> int:
         st["state"] += 1
@@ -264,7 +269,11 @@ def _child(spec: dict) -> dict:  # noqa: C901, PLR0915, PLR0912
                 raise AttributeError("hook_event_loop")
 
         scr_cls = NoHookScreen
+    if spec.get("utf8"):
+        urwid.set_encoding("utf-8")
     screen = scr_cls(input=fin, output=tee, bracketed_paste_mode=bool(spec.get("paste")), focus_reporting=bool(spec.get("focus")))
+    if spec.get("complete_wait"):
+        screen.set_input_timeouts(None, complete_wait=float(spec["complete_wait"]))
 
     # ---- event loop
     lname = spec["loop"]
@@ -375,6 +384,8 @@ def _child(spec: dict) -> dict:  # noqa: C901, PLR0915, PLR0912
         i = seen_after(i0, site, **match)
         return i is not None and seen_after(i + 1, "flush") is not None
 
+    hold = {"t": time.monotonic()}
+
     def driver() -> None:
         # wait for the initial paint
         wait_for(lambda: seen_after(0, "flush") is not None and seen_after(0, "render") is not None, 3.0)
@@ -400,6 +411,21 @@ def _child(spec: dict) -> dict:  # noqa: C901, PLR0915, PLR0912
                 wait_for(lambda i0=i0: settled(i0, "file"), STEP_WAIT)
             elif kind == "alarm":
                 wait_for(lambda arg=arg: settled(0, "alarm", n=arg), 1.0)
+            elif kind == "split":
+                # one key in two writes: the second only after the loop has read (and could not complete) the first
+                cw = float(spec.get("complete_wait") or 0.125)
+                os.write(master, arg[0].encode("latin-1"))
+                wait_for(lambda i0=i0: seen_after(i0, "filter", keys=[]) is not None, cw * 0.5)
+                i1 = seen_after(i0, "filter", keys=[])
+                hold["t"] = log[i1]["t"] if i1 is not None else time.monotonic()
+                log.append({"site": "step2", "n": n, "t": time.monotonic(), "first_read_seen": i1 is not None})
+                os.write(master, arg[1].encode("latin-1"))
+                wait_for(lambda i0=len(log): settled(i0, "filter"), STEP_WAIT)
+            elif kind == "hold":
+                # keep the loop waiting until `arg` seconds after the last split's first fragment was read
+                end = hold["t"] + float(arg)
+                wait_for(lambda end=end: time.monotonic() >= end, float(arg) + 1.0)
+                log.append({"site": "held", "n": n, "t": time.monotonic()})
         while not st["finished"]:
             pump(0.005)
 
@@ -415,7 +441,8 @@ def _child(spec: dict) -> dict:  # noqa: C901, PLR0915, PLR0912
         outcome["how"] = "raised"
         outcome["exc_type"] = type(e).__name__
         outcome["exc_repr"] = repr(e)[:300]
-        outcome["same_object"] = e is boom
+        outcome["same_object"] = bool(inject) and e is faults.get(inject["kind"])
+        outcome["is_exception_subclass"] = isinstance(e, Exception)
         import traceback
 
         outcome["tb"] = traceback.format_exc(limit=12)[-1500:]
